@@ -15,13 +15,27 @@ def prog():
     return _PROG
 
 
-def explore_source(src, plant=None, target_os=(), multi_file=False, max_paths=20000, interp=None, crate="", file_path="src/lib.rs"):
+def explore_source(src, plant=None, target_os=(), multi_file=False, max_paths=20000, interp=None, crate="", file_path="src/lib.rs", via_parse=False):
     """run the visitor on `src` (placeholders planted by plant(I) -> mapping); yields
-    (I, kind, parsed_data_json|None|Panic, pc) per path"""
+    (I, kind, parsed_data_json|None|Panic, pc) per path.  via_parse: enter through `parser::parse` itself (text pre-filter,
+    syn::parse_file model, visitor) with the placeholders symbolic in the source text as well"""
     P = prog()
     I = interp or new_interp(P)
 
+    def entry_parse(I):
+        from vlib.mirsym import parse_entry
+        r = parse_entry.run_parse(I, src, plant(I) if plant else None, target_os=target_os, multi_file=multi_file, crate=crate, file_path=file_path)
+        if r.variant != 0:
+            note = "parser::parse returned Err for a harness source (treated as: nothing generated)"
+            if note not in I.notes:
+                I.notes.append(note)
+            return None
+        o = r.fields[0]
+        return None if o.variant == 0 else o.fields[0]
+
     def entry(I):
+        if via_parse:
+            return entry_parse(I)
         f = synast.parse_source(P, src)
         if plant:
             synast.plant(f, plant(I))
